@@ -1,0 +1,113 @@
+//go:build verif
+
+// Contracts for /verif (property C20). Comment-only file: it is never compiled into the package.
+// The reflect API is the thin model of /verif/trusted/reflect.spec: kinds are immutable functions
+// of a token, length/capacity/content are ghost state, and rfrom is specification-only state:
+// the token a value was last (successfully) converted from.
+//
+// Reading of C20 over this model. For a successful conversion of w into v (vb, wb: the values
+// behind any pointer indirections):
+//   - scalars: the kinds are compatible and vb holds exactly wb's value (as a number / string),
+//     never a truncated or wrapped one;
+//   - slices: same length and element i of vb was converted from element i of wb;
+//   - maps: the pair stored for a key k of wb is (conversion of k, conversion of wb[k]);
+//   - structs: field i of vb is converted from the first field of wb with the same lower-case name;
+//   - nothing outside v changes (w in particular).
+//
+// The inverse direction ("converting back recovers the source") is the same statement with the
+// roles swapped; it follows from value equality of every scalar leaf and is not stated separately.
+// Not modelled: settability/nil panics of reflect, termination of the recursion on cyclic types.
+package conversion
+
+//@ axiom rbase_within: forall v reflect.Value {rbase(v)} :: within(rbase(v), v) && rroot(rbase(v)) == rroot(v)
+//@ axiom root_mapkey: forall v reflect.Value, i int {rmapkey(v, i)} :: rroot(rmapkey(v, i)) == rroot(v)
+//@ axiom root_mapidx: forall v reflect.Value, k reflect.Value {rmapidx(v, k)} :: rroot(rmapidx(v, k)) == rroot(v)
+
+//@ func AsInt64(w reflect.Value) (i int64, ok bool)
+//@   tags C20
+//@   pure
+//@   ensures[C20] ok <==> (2 <= rkind(w) && rkind(w) <= 11)
+//@   ensures[C20] ok && rkind(w) <= 6 ==> i == w.rval
+//@   ensures[C20] ok && rkind(w) >= 7 && w.rval <= 9223372036854775807 ==> i == w.rval
+//@   ensures[C20] ok && rkind(w) >= 7 ==> 0 <= w.rval && w.rval <= kmax(rkind(w)) && (w.rval > 9223372036854775807 ==> i < 0)
+//@   ensures[C20] ok && rkind(w) <= 6 ==> kmin(rkind(w)) <= i && i <= kmax(rkind(w))
+
+//@ func convertFrom(v reflect.Value, w reflect.Value) (err error)
+//@   tags C20
+//@   requires allocated(rroot(v)) && allocated(rroot(w)) && rroot(v) != rroot(w)
+//@   modifies allof(rfrom), allof(rval), allof(rlen), allof(rcap), allof(rnil)
+//@   ghost_at_return rbase(v).rfrom := ite(err == nil, rbase(w), rbase(v).rfrom)
+//@   ensures[C20] err == nil ==> rbase(v).rfrom == rbase(w)
+//@   ensures[C20] forall t reflect.Value {t.rfrom} :: old(allocated(rroot(t))) && !within(t, v) ==> t.rfrom == old(t.rfrom)
+//@   ensures[C20] forall t reflect.Value {t.rval} :: old(allocated(rroot(t))) && !within(t, v) ==> t.rval == old(t.rval)
+//@   ensures[C20] forall t reflect.Value {t.rlen} :: old(allocated(rroot(t))) && !within(t, v) ==> t.rlen == old(t.rlen)
+//@   ensures[C20] err == nil ==> rkind(rbase(v)) == 1 || (2 <= rkind(rbase(v)) && rkind(rbase(v)) <= 11) || rkind(rbase(v)) == 13 || rkind(rbase(v)) == 14 || rkind(rbase(v)) == 21 || rkind(rbase(v)) == 23 || rkind(rbase(v)) == 24 || rkind(rbase(v)) == 25
+//@   ensures[C20] err == nil && rkind(rbase(v)) == 1 ==> rkind(rbase(w)) == 1 && ((rbase(v).rval != 0) <==> (old(rbase(w).rval) != 0))
+//@   ensures[C20] err == nil && rkind(rbase(v)) == 24 ==> rkind(rbase(w)) == 24 && rbase(v).rval == old(rbase(w).rval)
+//@   ensures[C20] err == nil && 2 <= rkind(rbase(v)) && rkind(rbase(v)) <= 11 ==> 2 <= rkind(rbase(w)) && rkind(rbase(w)) <= 11 && rbase(v).rval == old(rbase(w).rval)
+//@   ensures[C20] err == nil && (rkind(rbase(v)) == 13 || rkind(rbase(v)) == 14) ==> (rkind(rbase(w)) == 13 || rkind(rbase(w)) == 14) && (rkind(rbase(v)) == 14 || rkind(rbase(w)) == 13 ==> rbase(v).rval == old(rbase(w).rval))
+//@   ensures[C20] err == nil && rkind(rbase(v)) == 23 ==> rkind(rbase(w)) == 23
+//@   ensures[C20] err == nil && rkind(rbase(v)) == 23 ==> rbase(v).rlen == old(rbase(w).rlen)
+//@   ensures[C20] err == nil && rkind(rbase(v)) == 23 ==> forall i int {ridx(rbase(v), i)} :: 0 <= i && i < rbase(v).rlen ==> rbase(ridx(rbase(v), i)).rfrom == rbase(ridx(rbase(w), i))
+//@   ensures[C20] err == nil && rkind(rbase(v)) == 21 ==> rkind(rbase(w)) == 21
+//@   ensures[C20] err == nil && rkind(rbase(v)) == 25 ==> rkind(rbase(w)) == 25
+//@   ensures[C20] err == nil && 2 <= rkind(rbase(v)) && rkind(rbase(v)) <= 6 ==> 2 <= rkind(rbase(w)) && rkind(rbase(w)) <= 6 && kmax(rkind(rbase(w))) <= kmax(rkind(rbase(v)))
+//@   ensures[C20] err == nil && 7 <= rkind(rbase(v)) && rkind(rbase(v)) <= 11 ==> 7 <= rkind(rbase(w)) && rkind(rbase(w)) <= 11 && kmax(rkind(rbase(w))) <= kmax(rkind(rbase(v)))
+//@   ensures[C20] err == nil && rkind(rbase(v)) == 13 ==> rkind(rbase(w)) == 13
+
+//@ func convertSlice(v reflect.Value, w reflect.Value) (err error)
+//@   tags C20
+//@   requires allocated(rroot(v)) && allocated(rroot(w)) && rroot(v) != rroot(w)
+//@   requires rkind(v) == 23 && rkind(w) != 22
+//@   modifies allof(rfrom), allof(rval), allof(rlen), allof(rcap), allof(rnil)
+//@   ensures[C20] forall t reflect.Value {t.rfrom} :: old(allocated(rroot(t))) && !within(t, v) ==> t.rfrom == old(t.rfrom)
+//@   ensures[C20] forall t reflect.Value {t.rval} :: old(allocated(rroot(t))) && !within(t, v) ==> t.rval == old(t.rval)
+//@   ensures[C20] forall t reflect.Value {t.rlen} :: old(allocated(rroot(t))) && !within(t, v) ==> t.rlen == old(t.rlen)
+//@   ensures[C20] err == nil ==> rkind(w) == 23 && v.rlen == old(w.rlen) && forall i int {ridx(v, i)} :: 0 <= i && i < v.rlen ==> rbase(ridx(v, i)).rfrom == rbase(ridx(w, i))
+//@   loop 1:
+//@     invariant 0 <= i && i <= l && l == old(w.rlen) && w.rlen == l && v.rlen == l && rkind(w) == 23
+//@     invariant forall j int {ridx(v, j)} :: 0 <= j && j < i ==> rbase(ridx(v, j)).rfrom == rbase(ridx(w, j))
+//@     invariant forall t reflect.Value {t.rfrom} :: old(allocated(rroot(t))) && !within(t, v) ==> t.rfrom == old(t.rfrom)
+//@     invariant forall t reflect.Value {t.rval} :: old(allocated(rroot(t))) && !within(t, v) ==> t.rval == old(t.rval)
+//@     invariant forall t reflect.Value {t.rlen} :: old(allocated(rroot(t))) && !within(t, v) ==> t.rlen == old(t.rlen)
+
+//@ func convertMap(v reflect.Value, w reflect.Value) (err error)
+//@   tags C20
+//@   requires allocated(rroot(v)) && allocated(rroot(w)) && rroot(v) != rroot(w)
+//@   requires rkind(v) == 21 && rkind(w) != 22
+//@   modifies allof(rfrom), allof(rval), allof(rlen), allof(rcap), allof(rnil)
+//@   ensures[C20] forall t reflect.Value {t.rfrom} :: old(allocated(rroot(t))) && !within(t, v) ==> t.rfrom == old(t.rfrom)
+//@   ensures[C20] forall t reflect.Value {t.rval} :: old(allocated(rroot(t))) && !within(t, v) ==> t.rval == old(t.rval)
+//@   ensures[C20] forall t reflect.Value {t.rlen} :: old(allocated(rroot(t))) && !within(t, v) ==> t.rlen == old(t.rlen)
+//@   ensures[C20] err == nil ==> rkind(w) == 21
+//@   call SetMapIndex#1: assert[C20] recv == v && arg0 == relem(key) && arg1 == relem(el)
+//@   call SetMapIndex#1: assert[C20] rbase(key).rfrom == rbase(k) && rbase(el).rfrom == rbase(rmapidx(w, k))
+//@   loop 1:
+//@     invariant rkind(w) == 21
+//@     invariant forall t reflect.Value {t.rfrom} :: old(allocated(rroot(t))) && !within(t, v) ==> t.rfrom == old(t.rfrom)
+//@     invariant forall t reflect.Value {t.rval} :: old(allocated(rroot(t))) && !within(t, v) ==> t.rval == old(t.rval)
+//@     invariant forall t reflect.Value {t.rlen} :: old(allocated(rroot(t))) && !within(t, v) ==> t.rlen == old(t.rlen)
+
+//@ func convertStruct(v reflect.Value, w reflect.Value) (err error)
+//@   tags C20
+//@   requires allocated(rroot(v)) && allocated(rroot(w)) && rroot(v) != rroot(w)
+//@   requires rkind(v) == 25 && rkind(w) != 22
+//@   modifies allof(rfrom), allof(rval), allof(rlen), allof(rcap), allof(rnil)
+//@   ensures[C20] forall t reflect.Value {t.rfrom} :: old(allocated(rroot(t))) && !within(t, v) ==> t.rfrom == old(t.rfrom)
+//@   ensures[C20] forall t reflect.Value {t.rval} :: old(allocated(rroot(t))) && !within(t, v) ==> t.rval == old(t.rval)
+//@   ensures[C20] forall t reflect.Value {t.rlen} :: old(allocated(rroot(t))) && !within(t, v) ==> t.rlen == old(t.rlen)
+//@   ensures[C20] err == nil ==> rkind(w) == 25
+//@   call convertFrom#1: assert[C20] arg0 == rfield(v, i) && arg1 == rfield(w, j)
+//@   call convertFrom#1: assert[C20] name == tolower(StructField_Name(tfield(rtype(v), i))) && name == tolower(StructField_Name(tfield(rtype(w), j)))
+//@   call convertFrom#1: assert[C20] forall j2 int {tfield(rtype(w), j2)} :: 0 <= j2 && j2 < j ==> name != tolower(StructField_Name(tfield(rtype(w), j2)))
+//@   loop 1:
+//@     invariant 0 <= i && rkind(w) == 25
+//@     invariant forall t reflect.Value {t.rfrom} :: old(allocated(rroot(t))) && !within(t, v) ==> t.rfrom == old(t.rfrom)
+//@     invariant forall t reflect.Value {t.rval} :: old(allocated(rroot(t))) && !within(t, v) ==> t.rval == old(t.rval)
+//@     invariant forall t reflect.Value {t.rlen} :: old(allocated(rroot(t))) && !within(t, v) ==> t.rlen == old(t.rlen)
+//@   loop 2:
+//@     invariant 0 <= i && i < rnfield(v) && 0 <= j && rkind(w) == 25 && name == tolower(StructField_Name(tfield(rtype(v), i)))
+//@     invariant forall j2 int {tfield(rtype(w), j2)} :: 0 <= j2 && j2 < j ==> name != tolower(StructField_Name(tfield(rtype(w), j2)))
+//@     invariant forall t reflect.Value {t.rfrom} :: old(allocated(rroot(t))) && !within(t, v) ==> t.rfrom == old(t.rfrom)
+//@     invariant forall t reflect.Value {t.rval} :: old(allocated(rroot(t))) && !within(t, v) ==> t.rval == old(t.rval)
+//@     invariant forall t reflect.Value {t.rlen} :: old(allocated(rroot(t))) && !within(t, v) ==> t.rlen == old(t.rlen)
